@@ -1111,6 +1111,9 @@ func (m *Machine) nodeTypeAssert(itf Iface, asserted types.Type) (bool, Value) {
 	return false, nil
 }
 
+// BadJSONNumberText is the text of a json.Number in the JBad state.
+const BadJSONNumberText = "1e9999999"
+
 // jsonNumberText returns the abstract string that is the text of the node's json.Number.
 func (m *Machine) jsonNumberText(n *Node) *smt.Term {
 	t := m.Ctx.Var(n.Name+".jntext", smt.SStr)
@@ -1124,6 +1127,10 @@ func (m *Machine) jsonNumberText(n *Node) *smt.Term {
 		m.AddBase(c.Eq(m.rawRunes(t), m.rawBytes(t)))
 		m.AddBase(c.Le(c.Int(1), m.rawRunes(t)))
 		m.AddBase(c.Le(m.rawRunes(t), c.Int(30)))
+		if n.JBad != nil {
+			// the one unparseable text of the model (valid JSON; math/big refuses the exponent)
+			m.AddBase(c.Implies(n.JBad, c.Eq(t, m.StrConst(BadJSONNumberText))))
+		}
 	}
 	return t
 }
